@@ -181,7 +181,7 @@ vt_proof! { unwind = 16; fn c31_reset_equals_fresh() {
 // (Vec<Vec<u8>> / Vec<ColumnDef> state on the heap); the quick tier therefore uses 1- and 2-column schemas, the
 // 4-column harnesses stay in the thorough tier with a 40 GB cap.
 
-// @vt prop=C31 tier=quick bound="view offset arithmetic, schema (text, blob): EVERY offset table (two arbitrary u16 entries), arbitrary null bitmap" outside="more than 2 variable columns in the quick tier; payload bytes (bounds only)" timeout=900 mem=16
+// @vt prop=C31 tier=quick bound="view offset arithmetic, schema (text, blob): EVERY offset table (two arbitrary u16 entries), arbitrary null bitmap" outside="more than 2 variable columns in the quick tier; payload bytes (bounds only)" timeout=1800 mem=16
 vt_proof! { unwind = 8; fn c31_view_var_bounds_two_var_columns() {
     let schema = core::mem::ManuallyDrop::new(schema_of(&[DataType::Text, DataType::Blob]));
     let e: [u16; 2] = kani::any();
@@ -199,7 +199,7 @@ vt_proof! { unwind = 8; fn c31_view_var_bounds_two_var_columns() {
     kani::cover!(e[1] > 0x7fff, "w:large_offset");
 }}
 
-// @vt prop=C31 tier=quick bound="view, schema (int8, blob): hand-built record by the documented layout with arbitrary int8 bytes, arbitrary null bitmap, blob of 0..=2 arbitrary bytes: get_int8 / get_blob / is_null" outside="other schemas" timeout=900 mem=16
+// @vt prop=C31 tier=quick bound="view, schema (int8, blob): hand-built record by the documented layout with arbitrary int8 bytes, arbitrary null bitmap, blob of 0..=2 arbitrary bytes: get_int8 / get_blob / is_null" outside="other schemas" timeout=1800 mem=16
 vt_proof! { unwind = 10; fn c31_view_reads_documented_layout() {
     let schema = core::mem::ManuallyDrop::new(schema_of(&[DataType::Int8, DataType::Blob]));
     // [header_len u16 = 5][null bitmap 1][offset table 1*2][fixed 8][var data]
@@ -218,7 +218,7 @@ vt_proof! { unwind = 10; fn c31_view_reads_documented_layout() {
 
 fn one_col(t: DataType) -> core::mem::ManuallyDrop<Schema> { core::mem::ManuallyDrop::new(schema_of(&[t])) }
 
-// @vt prop=C31 tier=quick bound="builder -> view, single-column schemas int8 / float8 / uuid with arbitrary value or NULL; build == build_into" outside="multi-column schemas in the quick tier (thorough: 4 columns)" timeout=1200 mem=16
+// @vt prop=C31 tier=quick bound="builder -> view, single-column schemas int8 / float8 / uuid with arbitrary value or NULL; build == build_into" outside="multi-column schemas in the quick tier (thorough: 4 columns)" timeout=1800 mem=16
 vt_proof! { unwind = 18; fn c31_builder_single_fixed_column() {
     let which: u8 = kani::any(); kani::assume(which < 3);
     let null: bool = kani::any();
@@ -250,7 +250,7 @@ vt_proof! { unwind = 18; fn c31_builder_single_fixed_column() {
     kani::cover!(which == 2 && !null, "w:uuid_value");
 }}
 
-// @vt prop=C31 tier=quick bound="builder -> view, single blob column: value of 0..=2 arbitrary bytes; set, reset, set another value == fresh builder, byte for byte; build == build_into" outside="multi-column schemas in the quick tier" timeout=1200 mem=16
+// @vt prop=C31 tier=quick bound="builder -> view, single blob column: value of 0..=2 arbitrary bytes; set, reset, set another value == fresh builder, byte for byte; build == build_into" outside="multi-column schemas in the quick tier" timeout=1800 mem=16
 vt_proof! { unwind = 12; fn c31_builder_single_blob_reset_equals_fresh() {
     let s = one_col(DataType::Blob);
     let d1: [u8; 2] = kani::any(); let d2: [u8; 2] = kani::any();
